@@ -273,6 +273,7 @@ func main() {
 			}
 		}
 	}
+	dstCases(out)
 	time.Local = time.UTC
 
 	// ---- the families a query range selects, on a real shard: families created for consecutive hours (10 s store) or
